@@ -13,6 +13,12 @@ it on purpose.  The argument here is structural instead (labels, see `Lab`):
   * hence map[t.id] for a selected t is a copy (CLONE) and any other map lookup is a copy or an outside task (MAPPED);
   * every store / setter / mutator in the clone functions has a CLONE or freshly constructed receiver.
 Assumption recorded in the evidence: ids are unique among the selected tasks (C05), so SRCMAP[t.id] is t.
+
+Round 3 additions: guarded store `if k not in map: map[k] = v` == setdefault (CloneAnalysis._absent_guard); accumulate loops
+as comprehensions (Labeller.expand_acc / _block_accumulator); "merged" mode when wbs.WBS.__clone_tasks does not exist and
+__clone creates the clone map itself (_map_local); read-only aliases of the map (Labeller.map_aliases); guards of relation
+stores judged as propositional formulas over relation emptiness of the source task (_rel_prop / _skip_verdict /
+_implies_empty); what subtree() hands to __clone must be re-iterable (_given_roots / _raw_roots).
 """
 from __future__ import annotations
 
@@ -1160,6 +1166,27 @@ def _rels_in_iter(e: ast.AST):
     return None
 
 
+def _is_sequence_test(test: ast.AST, p: str, pol: bool) -> bool:
+    """(test, pol) says that parameter p is a list / tuple (re-iterable): isinstance(p, list) | isinstance(p, (list, tuple)) |
+    type(p) is list | type(p) in (list, tuple), or the negation with pol False"""
+    if isinstance(test, ast.UnaryOp) and isinstance(test.op, ast.Not):
+        return _is_sequence_test(test.operand, p, not pol)
+    SEQ = {'list', 'tuple', '_ImmutableTaskList', '_ChildrenList'}
+
+    def seq_types(t):
+        if isinstance(t, ast.Name):
+            return t.id in SEQ
+        return isinstance(t, ast.Tuple) and bool(t.elts) and all(isinstance(x, ast.Name) and x.id in SEQ for x in t.elts)
+    m = match(f"isinstance({p}, $t)", test) or match(f"type({p}) is $t", test) or match(f"type({p}) in $t", test) or \
+        match(f"type({p}) == $t", test)
+    if m and seq_types(m['t']):
+        return pol
+    m = match(f"type({p}) is not $t", test) or match(f"type({p}) not in $t", test) or match(f"type({p}) != $t", test)
+    if m and seq_types(m['t']):
+        return not pol
+    return False
+
+
 def _map_local(g: Func) -> Optional[str]:
     """the local of g that is created as the clone map: `m = {<k>: <x>.clone() for ...}` or `m = {}` filled by
     `m[<k>] = <x>.clone()`; None unless there is exactly one such local"""
@@ -1630,6 +1657,21 @@ class CloneAnalysis:
             return lambda env, r=r: env[r]
         return None
 
+    def _implies_empty(self, L: Labeller, atoms, rel: str, origin, cn) -> bool:
+        """the path condition is a formula over relation emptiness of the source task and holds only when its `rel` is empty"""
+        fs = []
+        for atom, pol in atoms:
+            f = self._rel_prop(L, atom, origin, cn)
+            if f is None:
+                return False
+            fs.append((f, pol))
+        import itertools
+        for bits in itertools.product((False, True), repeat=len(ALL_RELS)):
+            env = dict(zip(ALL_RELS, bits))
+            if env[rel] and all(f(env) == pol for f, pol in fs):
+                return False
+        return True
+
     def _skip_verdict(self, L: Labeller, atoms, rel: str, origin, cn, others=()):
         """the store of relation `rel` runs under the path condition `atoms`.  -> (verdict, implies_nonempty, witness) with verdict
         'none' (unconditional) | 'benign' (skipped only when the source's `rel` is empty / None: a fresh copy already has that
@@ -1698,6 +1740,9 @@ class CloneAnalysis:
                 continue
             rhs = L.expand_acc(st.value, cn)
             stmt_atoms = self._atoms(L, cn)
+            if rel != 'parent' and (isinstance(rhs, ast.List) and not rhs.elts or match("list()", rhs)) and stmt_atoms and \
+                    self._implies_empty(L, stmt_atoms, rel, rl.origin, cn):
+                continue        # `copy.R = []` in the branch where the source's R is empty (else-branch of an if/else form)
             if rel == 'parent' and isinstance(rhs, ast.Constant) and rhs.value is None:
                 skip, implies, witness = 'none', False, None        # `copy.parent = None` branch of an if/else form: judged below
             else:
@@ -1709,7 +1754,12 @@ class CloneAnalysis:
                         if r2.kind == 'CLONE' and r2.origin == rl.origin:
                             others.append((self._atoms(L, cn2), cn2))
                 skip, implies, witness = self._skip_verdict(L, stmt_atoms, rel, rl.origin, cn, others)
-            if skip == 'bad':
+            if skip == 'bad' and rel == 'children':
+                # every child re-attaches itself through its own `parent` assignment, in source order: skipping the children
+                # assignment of some copies may well be harmless - depends on the setters, not decided here
+                self.undecided(f, st, st, f"`children` is assigned only for part of the copies (`{' and '.join(facts.cond_texts(stmt_atoms))[:80]}`); "
+                                          f"whether the parent assignments of the children rebuild the same order is not decided", 'relations')
+            elif skip == 'bad':
                 rest = [r for r in ALL_RELS if r != rel]
                 case = ', '.join(('' if witness[r] else 'no ') + r for r in rest)
                 self.refute(f, st, st, f"`{src(tgt)}` is assigned only when `{' and '.join(self.text(a) if p else 'not (' + self.text(a) + ')' for a, p in stmt_atoms)[:120]}`: "
@@ -2278,7 +2328,8 @@ class CloneAnalysis:
             state = 'yes'
             for d in ds:
                 if d.kind == 'param':
-                    state = 'raw'
+                    if not self._param_is_sequence(E, p, cn, [x for x in ds if x is not d]):
+                        state = 'raw'
                 elif d.kind == 'assign' and d.value is not None and d.node is not None:
                     g, st, b = self._given_roots(E, d.value, p, d.node, depth + 1)
                     bad = bad + b
@@ -2309,8 +2360,30 @@ class CloneAnalysis:
         if isinstance(inner, ast.IfExp):
             a = self._given_roots(E, inner.body, p, cn, depth + 1)
             b = self._given_roots(E, inner.orelse, p, cn, depth + 1)
-            return a[0] and b[0], 'yes' if a[1] == b[1] == 'yes' else 'raw', bad + a[2] + b[2]
+            sa, sb = a[1], b[1]
+            # `roots if isinstance(roots, list) else _to_list(roots)`: the raw branch is taken for real sequences only
+            if sa == 'raw' and isinstance(inner.body, ast.Name) and inner.body.id == p and _is_sequence_test(inner.test, p, True):
+                sa = 'yes'
+            if sb == 'raw' and isinstance(inner.orelse, ast.Name) and inner.orelse.id == p and _is_sequence_test(inner.test, p, False):
+                sb = 'yes'
+            return a[0] and b[0], 'yes' if sa == sb == 'yes' else 'raw', bad + a[2] + b[2]
         return False, 'raw', bad
+
+    def _param_is_sequence(self, E: Func, p: str, cn, other_defs) -> bool:
+        """the parameter value itself reaches the call only when it is a list / tuple: either the call sits under
+        `isinstance(p, (list, tuple))`, or the only other definition is `if not isinstance(p, list): p = <...>`"""
+        cfg = cfg_of(E)
+        for t, pol in cfg.conditions(cn):
+            if _is_sequence_test(t, p, pol):
+                return True
+        if len(other_defs) == 1 and other_defs[0].node is not None:
+            conds = cfg.conditions(other_defs[0].node)
+            base = cfg.conditions(cn)
+            extra = [c for c in conds if not any(c[0] is b[0] and c[1] == b[1] for b in base)]
+            if len(extra) == 1 and len(conds) == len(base) + 1 and _is_sequence_test(extra[0][0], p, not extra[0][1]):
+                # the parameter survives only on the complementary branch - provided that branch does nothing else to it
+                return len(flow_of(E).defs_of(p)) == 2
+        return False
 
     def _raw_roots(self, E: Func, call: ast.Call, p: str):
         """subtree() forwards the caller's `roots` object itself: fine only if __clone materialises it before traversing it"""
